@@ -43,6 +43,19 @@ def gen(tier, rng):
         for i in range(p.omega): e[ho + i] = i % 256
         for i in range(p.K): e[ho + p.omega + i] = p.omega
         add(bytes(e), m, pk, ["indices-increasing-all-in-first"])
+        # indices strictly increasing so that the ordering check keeps passing, counters beyond omega in every pattern:
+        # only the per-counter bound stops the index loop from running off the signature
+        for pat in ("incr-above", "all255", "first255", "omega+K", "last-only"):
+            e = bytearray(sig)
+            for i in range(p.omega): e[ho + i] = i
+            for i in range(p.K):
+                e[ho + p.omega + i] = {"incr-above": min(255, p.omega + p.K + i), "all255": 255, "first255": 255 if i == 0 else p.omega,
+                                       "omega+K": min(255, p.omega + p.K), "last-only": (p.omega if i < p.K - 1 else min(255, p.omega + p.K + 1))}[pat]
+            add(bytes(e), m, pk, ["counters-beyond-omega-" + pat] + (["model"] if pat == "incr-above" else []))
+            # same with the index bytes continuing to increase into the counter area
+            e2 = bytearray(e)
+            for i in range(p.omega): e2[ho + i] = min(255, i + 1)
+            add(bytes(e2), m, pk, ["counters-beyond-omega-" + pat + "-shifted"])
         # z extremes: all-zero bits (z = gamma1), all-one bits (z = gamma1 - 2^bits + 1), values at the gate
         for fill, tag in ((0x00, "z-allzero-bits"), (0xFF, "z-allone-bits")):
             e = bytearray(sig)
@@ -75,6 +88,13 @@ def gen(tier, rng):
         else:
             for n in (0, p.sig - 1, p.sig + 1):
                 out.append(Case("api_verify", api, [pk, m, (sig + b"\x00")[:n]], ["in_domain", "adversarial", "api", "crate-only"]))
+        # sampler refill paths through the XOF tap (no real seed reaches them with useful probability)
+        rej = 0xFF if p.eta == 2 else 0x9A
+        for tape in (bytes([rej] * 100) + bytes(rng.randrange(256) for _ in range(136 * 6 - 100)),
+                     bytes([rej] * (136 * 3)) + bytes(rng.randrange(256) for _ in range(136 * 4)),
+                     bytes(rng.randrange(256) for _ in range(136 * 3))):
+            out.append(Case("uniform_eta_tap", cp, [tape], ["in_domain", "adversarial", "refill"]))
+        out.append(Case("challenge_tap", cp, [bytes(8) + bytes([255] * 200) + bytes(rng.randrange(0, 190) for _ in range(136 * 3))], ["in_domain", "adversarial", "refill"]))
         # honest path, both builds
         for seed in (bytes(32), bytes([255] * 32), bytes(rng.randrange(256) for _ in range(32))):
             out.append(Case("keypair", cp, [seed], ["in_domain", "honest", "crate-only"]))
@@ -91,3 +111,30 @@ def oracle(c, outs):
     if c.fn in ("verify", "ml_verify", "ml_prehash_verify", "api_verify") and outs[0] not in (0, 1):
         return "verification returned a non-boolean"
     return None
+
+
+def extra(rep, cov, tier, rng):
+    """Honest-path volume in both builds: key generation from many seeds (and a signature + verification every 50 keys) under
+    catch_unwind; rare sampler branches (refills) and rounding boundaries only occur once per 10^4..10^5 seeds."""
+    from concurrent.futures import ThreadPoolExecutor
+    from dlib import crate
+    per = 60000 if tier == "quick" else 1500000
+    calls = []
+    for cp in ALL:
+        for sh in range(4):
+            calls.append((("keygen_volume", cp, [rng.randrange(1 << 60), per // 4, 50]), sh == 0))
+    with ThreadPoolExecutor(max_workers=16) as ex:
+        res = list(ex.map(lambda c: crate([c[0]], dev=c[1])[0], calls))
+    total = 0
+    for (cl, dev), r in zip(calls, res):
+        total += cl[2][1]
+        case = {"fn": "keygen_volume", "copy": cl[1], "args": [str(a) for a in cl[2]], "profile": "dev" if dev else "release"}
+        if r is None:
+            rep.violation("key generation volume probe aborted (%s)" % cl[1], {"cases": [case]}, True)
+        elif r[0] != 0 or r[2] != 0:
+            rep.violation("%d of %d seeded key generations panic (%s, %s build), first seed %s; %d sign/verify failures" %
+                          (r[0], cl[2][1], cl[1], "checked" if dev else "release", r[1].hex(), r[2]),
+                          {"cases": [{"fn": "keypair", "copy": cl[1], "args": ["x" + r[1].hex()], "tags": ["in_domain"], "exact": True}]}, True)
+    uft = Case("uniform_tap", "-", [bytes([255, 255, 127] * 400) + bytes(rng.randrange(256) for _ in range(168 * 8))], ["in_domain", "adversarial", "refill"])
+    cov["honest_keygens"] = total
+    cov["evaluations"] = cov.get("evaluations", 0) + total
